@@ -154,6 +154,29 @@ def handlePack (ws : List String) : String :=
     | _, _, _ => "bad-request"
   | _ => "bad-request"
 
+/-- `pblock a|b <t> <nm> <K> <bs>`: `prepack_a` / `prepack_b` of an index-valued operand
+(`A[r,k] = r*K + k + 1`, `B[k,c] = k*nm + c + 1`) with panel size `t`: total buffer length, the
+span `start,len,stride` of `block(s..e, idx)` for every block of size `bs` and every depth block,
+and the buffer contents. -/
+def handlePBlock (ws : List String) : String :=
+  match ws with
+  | kind :: t :: nm :: k :: bs :: _ =>
+    match t.toNat?, nm.toNat?, k.toNat?, bs.toNat? with
+    | some t, some nm, some K, some bs =>
+      let kc := depthBlockSize consts elemSize K none
+      let base := prepackBase t nm K kc
+      let spans := (List.range (divCeil nm bs)).flatMap fun i =>
+        (List.range (divCeil K kc)).map fun idx =>
+          let r := blockRange nm bs i
+          let b := base.block r.1 r.2 idx
+          s!"{b.1},{b.2.1 - b.1},{b.2.2}"
+      let buf : List Int :=
+        if kind == "a" then prepackABuf (fun r c => (r * K + c + 1 : Nat)) t nm K kc
+        else prepackBBuf (fun r c => (r * nm + c + 1 : Nat)) t nm K kc
+      s!"total={base.totalLen} spans={joinWith ";" spans} buf={showInts "," buf}"
+    | _, _, _, _ => "bad-request"
+  | _ => "bad-request"
+
 def handle (line : String) : String :=
   match line.splitOn "|" with
   | [] => "bad-request"
@@ -162,6 +185,7 @@ def handle (line : String) : String :=
     | "sched" :: ws => handleSched ws
     | "gemm" :: ws => handleGemm ws rest
     | "pack" :: ws => handlePack ws
+    | "pblock" :: ws => handlePBlock ws
     | _ => "bad-request"
 
 end RtenVerif.Driver.C16
